@@ -22,6 +22,14 @@
 (* input is never written, and the MEMO property - the abstract result of  *)
 (* a call is a function of (kind, class, seed, stream position) only.      *)
 (* A pure aggregator has no other state: the model has none.               *)
+(* In particular the constant parameter vector of a kind (weights,         *)
+(* pref_vector, leak: ParamVec below, entries that no binary floating      *)
+(* point format represents) is part of the KIND, not of the state: a       *)
+(* history may present matrices of BOTH dtypes to one instance (mixed      *)
+(* histories, Cross below) and the value of every call is still a function *)
+(* of (kind, class, seed, stream position) - whatever an implementation    *)
+(* derives from the parameter for one dtype must not be seen by a call in  *)
+(* the other.                                                              *)
 (* The RNG is an abstract stream: (seed, sequence of draw requests since   *)
 (* the seed was set).                                                      *)
 (*                                                                         *)
@@ -41,8 +49,13 @@ CONSTANTS MaxCalls,     \* longest call history
 (*   a : length of weights / pref_vector / leak (0 = not given),           *)
 (*       trim_number for TrimmedMean, n_byzantine for Krum                 *)
 (*   b : n_selected for Krum                                               *)
-(*   pdt : dtype of the tensor-valued parameter ("any" if there is none);  *)
-(*       such a kind is only called with inputs of that dtype              *)
+(*   pdt : dtype of the tensor-valued parameter ("any" if there is none).  *)
+(*       Single calls present inputs of that dtype only; HISTORIES also    *)
+(*       present inputs of the other dtype (Cross): the statement is       *)
+(*       silent about what such a call returns (today: UPGrad, DualProj,   *)
+(*       GradDrop answer in the dtype of the input, Constant, AlignedMTL   *)
+(*       and ConFIG raise a RuntimeError), but not about its being         *)
+(*       independent of earlier calls and leaving no trace for later ones  *)
 
 Kd(name, agg, a, b, pdt) == [name |-> name, agg |-> agg, a |-> a, b |-> b, pdt |-> pdt]
 
@@ -57,6 +70,7 @@ Kinds == {
     Kd("Constant5d", "Constant", 5, 0, "f64"),    Kd("Constant1s", "Constant", 1, 0, "f32"),
     Kd("UPGradP3d", "UPGrad", 3, 0, "f64"),       Kd("UPGradP4s", "UPGrad", 4, 0, "f32"),
     Kd("DualProjP3s", "DualProj", 3, 0, "f32"),   Kd("DualProjP5d", "DualProj", 5, 0, "f64"),
+    Kd("DualProjP3d", "DualProj", 3, 0, "f64"),
     Kd("AlignedMTLP3d", "AlignedMTL", 3, 0, "f64"), Kd("AlignedMTLP5s", "AlignedMTL", 5, 0, "f32"),
     Kd("ConFIGP3d", "ConFIG", 3, 0, "f64"),       Kd("ConFIGP5s", "ConFIG", 5, 0, "f32"),
     Kd("GradDropL3d", "GradDrop", 3, 0, "f64"),   Kd("GradDropL4s", "GradDrop", 4, 0, "f32"),
@@ -70,6 +84,29 @@ Randomised(kind)   == kind.agg \in {"PCGrad", "GradDrop", "Random"}
 \* TrimmedMean".  ConFIG is not a _WeightedAggregator and validates nothing (DESIGN.md 9).
 Validating(kind)   == kind.agg # "ConFIG"
 NormEpsKinds       == {"UPGrad", "DualProj", "CAGrad"}      \* homogeneous only while s >= norm_eps
+
+\* The constant parameter vector of a kind with a > 0 (weights of Constant, leak of GradDrop,
+\* pref_vector of the others): exact rationals <<num, den>>, entry i of a vector of any length.
+\* The tensor handed to the constructor is the vector rounded to the kind's pdt.  No entry is
+\* representable in a binary format (ParamNotDyadic), so that the float64 parameter differs from its
+\* own round trip through float32 in EVERY entry: a representation of the parameter derived for one
+\* input dtype is distinguishable from the parameter itself.
+ParamAggs == {"Constant", "UPGrad", "DualProj", "AlignedMTL", "ConFIG", "GradDrop"}
+ParamEntry(agg, i) ==
+    CASE agg = "Constant" -> <<(IF i % 2 = 1 THEN 1 ELSE -1) * (i + 1), 7>>    \* 2/7, -3/7, 4/7, -5/7, 6/7
+      [] agg = "GradDrop" -> <<i, 7>>                                         \* leak in (0, 1)
+      [] OTHER            -> <<3 * i - 2, 11>>                                \* 1/11, 4/11, 7/11, 10/11, 13/11
+ParamVec(kind) == IF kind.agg \in ParamAggs /\ kind.a > 0 /\ kind.pdt # "any"
+                  THEN [i \in 1..kind.a |-> ParamEntry(kind.agg, i)] ELSE <<>>
+MaxParamLen == 5
+\* odd denominator that does not divide the numerator: in lowest terms the denominator is odd and > 1
+ParamNotDyadic == \A agg \in ParamAggs : \A i \in 1..MaxParamLen :
+                     LET q == ParamEntry(agg, i) IN
+                     /\ q[2] > 1 /\ q[2] % 2 = 1
+                     /\ (IF q[1] < 0 THEN -q[1] ELSE q[1]) % q[2] # 0
+                     /\ (agg = "GradDrop" => (0 < q[1] /\ q[1] < q[2]))
+ASSUME ParamNotDyadic
+HasParam(kind) == ParamVec(kind) # <<>>
 
 \* documented row-count requirement
 RowOK(kind, m) ==
@@ -197,9 +234,12 @@ HistFull  == HistSmall \cup
                Cl(<<3, 2>>, "gen", "finite", "first", "f64", 0) }
 HistAlphabet == IF HistLevel = 1 THEN HistSmall ELSE HistFull
 
-\* a kind with a tensor parameter is only used with inputs of the parameter's dtype
+\* single calls: a kind with a tensor parameter is used with inputs of the parameter's dtype;
+\* histories: with both dtypes (every history alphabet holds the same matrix in float32 and in
+\* float64, so that float32 -> float64 and float64 -> float32 orders both occur on one instance)
 DtypeOK(kind, c) == kind.pdt = "any" \/ kind.pdt = c.dtype
-Alphabet(kind, mode) == {c \in (IF mode = "single" THEN SingleAlphabet ELSE HistAlphabet) : DtypeOK(kind, c)}
+Cross(kind, c)   == ~DtypeOK(kind, c)
+Alphabet(kind, mode) == IF mode = "single" THEN {c \in SingleAlphabet : DtypeOK(kind, c)} ELSE HistAlphabet
 
 -----------------------------------------------------------------------------
 (* Property layer: the contract table of C11                               *)
@@ -208,7 +248,12 @@ Contract(kind, c) ==
     IF Len(c.dims) # 2 THEN (IF Validating(kind) THEN "ValueError" ELSE "unspecified")
     ELSE IF c.content # "finite" THEN (IF Validating(kind) THEN "ValueError" ELSE "unspecified")
     ELSE IF ~RowOK(kind, c.dims[1]) THEN "ValueError"
+    ELSE IF Cross(kind, c) THEN "unspecified"     \* outcome not demanded; independence of history is
     ELSE "vector"       \* finite vector, one entry per column, dtype of the input
+
+\* a finite matrix meeting the row requirement; presented in the other dtype than the parameter's
+Admissible(kind, c)      == Len(c.dims) = 2 /\ c.content = "finite" /\ RowOK(kind, c.dims[1])
+CrossAdmissible(kind, c) == Cross(kind, c) /\ Admissible(kind, c)
 
 ExpectN(c)     == c.dims[2]          \* only used when Contract = "vector"
 ExpectDtype(c) == c.dtype
@@ -220,7 +265,8 @@ ImplWeighted(kind, c) ==        \* _WeightedAggregator.forward, then the weighti
     IF Len(c.dims) # 2 THEN "VE_matrix"
     ELSE IF c.content # "finite" THEN "VE_finite"
     ELSE IF ~RowOK(kind, c.dims[1]) THEN "VE_rows"
-    ELSE "vector"
+    ELSE IF Cross(kind, c) /\ kind.agg \in {"Constant", "AlignedMTL"} THEN "Err_other"   \* J.T @ weights
+    ELSE "vector"                   \* UPGrad / DualProj re-type the preference vector per call
 ImplRowsFirst(kind, c) ==       \* GradDrop, TrimmedMean: matrix, rows, finite
     IF Len(c.dims) # 2 THEN "VE_matrix"
     ELSE IF ~RowOK(kind, c.dims[1]) THEN "VE_rows"
@@ -230,6 +276,7 @@ ImplConFIG(kind, c) ==          \* only the preference vector's row check, on sh
     IF kind.a > 0 /\ Len(c.dims) = 0 THEN "Err_other"
     ELSE IF kind.a > 0 /\ c.dims[1] # kind.a THEN "VE_rows"
     ELSE IF Len(c.dims) # 2 THEN "Err_other"
+    ELSE IF Cross(kind, c) THEN "Err_other"
     ELSE IF c.content # "finite" THEN "vector_nonfinite"
     ELSE "vector"
 ImplOutcome(kind, c) ==
@@ -310,6 +357,8 @@ Limit   == IF mode = "single" THEN 1 ELSE MaxCalls
 \* style (single calls: all kinds)
 QuickHistKinds == {"Mean", "Sum", "MGDA", "PCGrad", "CAGrad", "IMTLG", "UPGrad", "DualProj", "AlignedMTL",
                    "ConFIG", "GradDrop", "Random", "Constant3d", "UPGradP3d", "ConFIGP3d", "GradDropL3d",
+                   "DualProjP3d", "AlignedMTLP3d",      \* every parameter-vector class, float64 parameter
+                   "Constant3s", "DualProjP3s",         \* float32 parameter, float64 calls in between
                    "TM1", "Krum0_1"}
 Init == /\ kind \in Kinds
         /\ mode \in {"single", "hist"}
@@ -360,9 +409,11 @@ TypeOK == /\ kind \in Kinds /\ mode \in {"single", "hist"} /\ ncalls \in 0..MaxC
 ContractTotal == \A i \in DOMAIN steps : steps[i].op = "call" =>
                     /\ steps[i].expect \in {"ValueError", "vector", "unspecified"}
                     /\ (steps[i].expect = "vector") <=>
-                         (Len(steps[i].c.dims) = 2 /\ steps[i].c.content = "finite"
-                          /\ RowOK(kind, steps[i].c.dims[1]))
-                    /\ (steps[i].expect = "unspecified" => ~Validating(kind))
+                         (Admissible(kind, steps[i].c) /\ ~Cross(kind, steps[i].c))
+                    /\ (steps[i].expect = "unspecified" => (~Validating(kind) \/ Cross(kind, steps[i].c)))
+                    \* the rejection clause does not depend on the dtype of the parameter
+                    /\ (Validating(kind) /\ steps[i].expect = "unspecified") => CrossAdmissible(kind, steps[i].c)
+                    /\ CrossAdmissible(kind, steps[i].c) => steps[i].expect = "unspecified"
 
 \* today's order of checks conforms to the contract
 ImplConforms == \A i \in DOMAIN steps : steps[i].op = "call" => Conforms(steps[i].expect, steps[i].impl)
@@ -376,6 +427,15 @@ Val(i) == <<kind.name, steps[i].c, steps[i].rngBefore>>
 Memo == \A i, j \in DOMAIN steps :
            (steps[i].op = "call" /\ steps[j].op = "call" /\ steps[i].c = steps[j].c
             /\ steps[i].rngBefore = steps[j].rngBefore) => Val(i) = Val(j)
+\* mixed-dtype histories: the dtype of the calls in between is not part of the value either (the
+\* parameter vector belongs to the kind); OtherDtypeBefore(i) is exported so that the harness can
+\* tell which memo comparisons were made across dtypes
+OtherDtypeBefore(i) == \E j \in 1..(i - 1) : steps[j].op = "call" /\ steps[j].c.dtype # steps[i].c.dtype
+                                              /\ Admissible(kind, steps[j].c)
+MemoAcrossDtypes == \A i, j \in DOMAIN steps :
+           (steps[i].op = "call" /\ steps[j].op = "call" /\ steps[i].c = steps[j].c
+            /\ steps[i].rngBefore = steps[j].rngBefore /\ OtherDtypeBefore(i) # OtherDtypeBefore(j))
+           => (Val(i) = Val(j) /\ steps[i].expect = steps[j].expect /\ steps[i].impl = steps[j].impl)
 DeterministicIgnoresRng == ~Randomised(kind) => \A i \in DOMAIN steps : steps[i].rngBefore.seed = "det"
 \* a rejected call does not advance the stream; a seed resets it
 StreamAccounting == \A i \in DOMAIN steps :
@@ -409,10 +469,11 @@ StepOut(i) ==
          [op |-> "call", c |-> c, expect |-> st.expect, impl |-> st.impl,
           n |-> IF st.expect = "vector" THEN ExpectN(c) ELSE -1,
           rng |-> st.rngBefore, memo |-> MemoLevel(kind, st.rngBefore),
+          cross |-> CrossAdmissible(kind, c), xdt |-> OtherDtypeBefore(i),
           hom |-> IF mode = "single" /\ cat THEN HomDemand(kind, c) ELSE "na",
           homK |-> IF mode = "single" /\ cat THEN HomK(kind, c) ELSE 0]
 
-Scenario == [mode |-> mode, kind |-> kind, steps |-> [i \in 1..Len(steps) |-> StepOut(i)]]
+Scenario == [mode |-> mode, kind |-> kind, param |-> ParamVec(kind), steps |-> [i \in 1..Len(steps) |-> StepOut(i)]]
 Export == (ncalls = Limit) => PrintT(<<"SCN", ToJson(Scenario)>>)
 
 \* the catalogue is exported once (evaluated when TLC checks the assumptions)
@@ -421,4 +482,6 @@ CatSeq(Ks) == IF Ks = {} THEN <<>>
               ELSE LET k == CHOOSE q \in Ks : TRUE IN
                    <<[dims |-> k[1], var |-> k[2], info |-> Catalogue[k]]>> \o CatSeq(Ks \ {k})
 ASSUME PrintT(<<"CAT", ToJson(CatSeq(DOMAIN Catalogue))>>)
+\* so is the parameter table (the C -> S driver constructs kinds of its own with it)
+ASSUME PrintT(<<"PAR", ToJson([agg \in ParamAggs |-> [i \in 1..MaxParamLen |-> ParamEntry(agg, i)]])>>)
 =============================================================================
